@@ -126,8 +126,8 @@ static std::string gen_tunnel(uint64_t seed, uint64_t idx, bool thorough) {
     uint64_t maxdelay = 5000000;
     uint64_t tend = t + 60000000ULL + 2 * maxdelay + 65000000ULL;
     o.line(strf("plan v1 engine=net prop=C19 seed=0x%llx idx=%llu", (unsigned long long)seed, (unsigned long long)idx));
-    o.line(strf("cfg scen=tunnel udp=%d fd=%d tscf=%d count=%d sched=%s lat=%llu:%llu cost=%llu:%llu qcap=%zu tend=%llu rseed=0x%llx skew0=%lld skew1=%lld",
-                udp, fd, tscf, count, sched_str(r).c_str(), (unsigned long long)lat_lo, (unsigned long long)lat_hi,
+    o.line(strf("cfg scen=tunnel udp=%d fd=%d tscf=%d count=%d o0=%d ethpad=%d sched=%s lat=%llu:%llu cost=%llu:%llu qcap=%zu tend=%llu rseed=0x%llx skew0=%lld skew1=%lld",
+                udp, fd, tscf, count, (int)r.chance(0.3), (int)(!udp && r.chance(0.4)), sched_str(r).c_str(), (unsigned long long)lat_lo, (unsigned long long)lat_hi,
                 (unsigned long long)r.range(50, 500), (unsigned long long)r.range(500, 20000), qcap, (unsigned long long)tend,
                 (unsigned long long)r.next(), (long long)r.range(0, 2000000) - 1000000, (long long)r.range(0, 2000000) - 1000000));
     for (auto &f : frames) o.line(f);
@@ -456,8 +456,8 @@ static std::string gen_c18(uint64_t seed, uint64_t idx, bool thorough) {
     uint64_t tend = t3 + tail + drain + 5000000ULL;
     size_t qcap = (size_t[]){4, 16, 64, 256}[r.below(4)];
     o.line(strf("plan v1 engine=net prop=C18 seed=0x%llx idx=%llu", (unsigned long long)seed, (unsigned long long)idx));
-    o.line(strf("cfg scen=%s udp=%d fd=%d tscf=%d count=%d mtt=%d sched=%s lat=%llu:%llu cost=%llu:%llu qcap=%zu tend=%llu drain=%llu quiet=%llu rseed=0x%llx skew0=%lld skew1=%lld skew2=%lld",
-                scen.c_str(), udp, fd, tscf, count, mtt, sched_str(r).c_str(), (unsigned long long)r.range(1000, 50000),
+    o.line(strf("cfg scen=%s udp=%d fd=%d tscf=%d count=%d mtt=%d o0=%d ethpad=%d sched=%s lat=%llu:%llu cost=%llu:%llu qcap=%zu tend=%llu drain=%llu quiet=%llu rseed=0x%llx skew0=%lld skew1=%lld skew2=%lld",
+                scen.c_str(), udp, fd, tscf, count, mtt, (int)r.chance(0.35), (int)(!udp && r.chance(0.3)), sched_str(r).c_str(), (unsigned long long)r.range(1000, 50000),
                 (unsigned long long)r.range(50000, 1000000), (unsigned long long)r.range(50, 500), (unsigned long long)r.range(500, 20000), qcap,
                 (unsigned long long)tend, (unsigned long long)drain, (unsigned long long)t2, (unsigned long long)rseed, (long long)r.range(0, 20000000) - 10000000,
                 (long long)r.range(0, 20000000) - 10000000, (long long)r.range(0, 20000000) - 10000000));
